@@ -1,8 +1,265 @@
-"""L-driver: placeholder until the Lean driver model is wired (filled in below by the real layer)."""
-from core import LayerResult
+"""L-driver: histories of solve/restart calls on one solver object, and L-istep: single implicit steps,
+on a recording fake discretisation -- model (exact Q state machine) vs implementation."""
+import numpy as np
+from fractions import Fraction
+from core import LayerResult, q, qs, parse_groups
+import impl
+from layers.integ import dyadic
+
+CLASSES = ['explicit', 'rk2', 'rk2_heun', 'rk3_heun', 'rk3ssp', 'rk4', 'lsrk25bb', 'lsrk26bb', 'lsrk4', 'implicit', 'cranknicolson', 'gear']
+IMPLICIT = ('implicit', 'cranknicolson', 'gear', 'trapezoidal', 'backwardeuler')
+
+
+class FModel:
+    def __init__(self):
+        self.neq = 1; self.shape = [1]; self.islinear = 0
+    def nameddata(self, name, data):
+        return data[0].copy()
+
+
+class FMesh:
+    def __init__(self, n):
+        self.ncell = n
+    def average(self, d):
+        return float(np.sum(d)) / self.ncell
+
+
+class FDisc:
+    """R(t,q)_i = c0 + c1 t + (c2 + c3 t) q_i + c4 q_i q_{i+1};  dt_i = cfl w_i (q_i >= 0) or cfl w_i / 2"""
+    def __init__(self, c, w):
+        self.c = [float(x) for x in c]; self.w = np.array(w, dtype=float); self.nelem = len(w); self.nrhs = 0
+    def rhs(self, f):
+        t = float(f.time); qd = np.array(f.data[0], dtype=float); c = self.c; self.nrhs += 1
+        return [c[0] + c[1] * t + (c[2] + c[3] * t) * qd + c[4] * qd * np.roll(qd, -1)]
+    def calc_timestep(self, f, cfl):
+        return np.where(f.data[0] >= 0, cfl * self.w, cfl * self.w / 2)
+    def all_L2average(self, r):
+        return float(np.sqrt(np.mean(np.square(r[0]))))
+
+
+def rand_problem(rng, cls, linear=False):
+    n = int(rng.integers(1, 5))
+    c = [dyadic(rng, -1, 1, 4) for _ in range(5)]
+    if linear:
+        c[4] = 0.0      # exact rationals double their size at every nonlinear stage: histories use a linear, time-dependent RHS
+    if cls in IMPLICIT:
+        c[2] = -abs(c[2]) - 0.5; c[3] = c[3] / 8               # damped and well conditioned at any CFL used here
+        if not linear:
+            c[4] = dyadic(rng, -0.25, 0.25)
+    w = [abs(dyadic(rng, 0.25, 1.0, 3)) + 0.25 for _ in range(n)]
+    q0 = [dyadic(rng, -1.5, 1.5, 4) for _ in range(n)]
+    return dict(cls=cls, n=n, c=c, w=w, q0=q0)
+
+
+def rand_call(rng, t0, dt, first):
+    kind = 'solve' if first or rng.random() < 0.4 else 'restart'
+    nst = int(rng.integers(1, 6))
+    T = dt * nst * float(rng.choice([1.0, 0.9, 1.3]))
+    k = int(rng.integers(7))
+    if k == 0:
+        ts = []
+    elif k == 1:
+        ts = [t0] + sorted(t0 + rng.uniform(0, T, int(rng.integers(1, 3))))
+    elif k == 2:
+        ts = sorted(t0 + rng.uniform(0, min(T, 2 * dt), int(rng.integers(2, 6))))
+    elif k == 3:
+        ts = sorted(np.concatenate([t0 - rng.uniform(0.01, 1, 1), t0 + rng.uniform(0, T, 2)]))
+    elif k == 4:
+        ts = [t0]
+    elif k == 5:
+        ts = sorted(t0 + T * np.array([0.25, 0.5, 0.5, 1.0]))     # a duplicate save time
+    else:
+        ts = sorted(t0 + rng.uniform(0, 1.2 * T, int(rng.integers(1, 4))))
+    # dyadic save times; an odd multiple of 1/1024 never ties with an iteration time (multiples of 1/64):
+    # exact ties are decided by binary64 round-off of the accumulated time in the implementation
+    ts = [float(x) if x == t0 else float(np.round(x * 512) / 512 + 1.0 / 1024) for x in ts]
+    mode = int(rng.integers(3)) if ts else 1
+    stop = None if mode == 0 else ({'maxit': nst} if mode == 1 else {'tottime': float(np.round((t0 + T) * 512) / 512), 'maxit': nst + int(rng.integers(-1, 2))})
+    freqs = [int(x) for x in rng.choice([1, 2, 3, 5], size=int(rng.integers(0, 3)))]
+    return dict(kind=kind, tsave=ts, stop=stop, freqs=freqs, dtlocal=bool(rng.random() < 0.25))
+
+
+def crit(call):
+    tt = call['tsave'][-1] if call['tsave'] else None
+    mi = None
+    if call['stop']:
+        tt = call['stop'].get('tottime', tt); mi = call['stop'].get('maxit', mi)
+    return tt, mi
+
+
+def drv_line(p, call, cfl, t0, itstart, q0, last):
+    tt, mi = crit(call)
+    return "drv %s | %s | %s | %s %s %d %d | %s %s | %s | %s | %s | %s" % (
+        p['cls'], qs(p['c']), qs(p['w']), q(cfl), q(t0), itstart, 1 if call['dtlocal'] else 0,
+        q(tt) if tt is not None else '-', str(mi) if mi is not None else '-', qs(call['tsave']),
+        " ".join(str(f) for f in call['freqs']), qs(q0), qs(last) if last is not None else "")
+
+
+def parse_drv(line):
+    gs = [g.strip() for g in line.split('|')]
+    head = gs[0].split()
+    out = dict(fin=int(head[0]), nit=int(head[1]), time=Fraction(head[2]),
+               data=[Fraction(x) for x in gs[1].split()], last=[Fraction(x) for x in gs[2].split()] if gs[2] else None)
+    nr = int(gs[3].split()[1])
+    res = []
+    for g in gs[4:4 + nr]:
+        t = g.split()
+        res.append((Fraction(t[0]), int(t[1]), [Fraction(x) for x in t[2:]]))
+    out['results'] = res
+    nm = int(gs[4 + nr].split()[1])
+    mons = []
+    for g in gs[5 + nr:5 + nr + nm]:
+        t = g.split()
+        mons.append([(int(t[i]), Fraction(t[i + 1]), Fraction(t[i + 2])) for i in range(0, len(t), 3)])
+    out['mons'] = mons
+    return out
 
 
 def layer_driver(ctx):
     r = LayerResult('L-driver')
-    r.note = 'not yet implemented'
+    nh = ctx.n(48, 700)
+    hist = []
+    for i in range(nh):
+        cls = CLASSES[i % len(CLASSES)]
+        p = rand_problem(ctx.rng, cls, linear=True)
+        cfl = float(ctx.rng.choice([0.5, 0.25, 1.0])) if cls not in IMPLICIT else float(ctx.rng.choice([0.5, 1.0, 2.0]))
+        t0 = float(ctx.rng.choice([0.0, 0.25, 1.0]))
+        it0 = int(ctx.rng.choice([-1, 0, 4]))
+        dt = cfl * min(p['w'])
+        ncalls = int(ctx.rng.integers(1, 4))
+        calls = [rand_call(ctx.rng, t0, dt, j == 0) for j in range(ncalls)]
+        hist.append(dict(p=p, cfl=cfl, t0=t0, it0=it0, calls=calls))
+    # implementation side: run each history on ONE solver object
+    for h in hist:
+        p = h['p']
+        def run():
+            disc = FDisc(p['c'], p['w'])
+            solver = getattr(impl.integ, p['cls'])(FMesh(p['n']), disc)
+            f = impl.field.fdata(FModel(), FMesh(p['n']), [np.array(p['q0'], dtype=float)], t=h['t0'], it=h['it0'])
+            outs = []
+            mon_objs = {}
+            for call in h['calls']:
+                mons = {'m%d' % j: {'type': 'data_average', 'data': 'x', 'frequency': fr} for j, fr in enumerate(call['freqs'])}
+                keep = (f.time, f.it, [d.copy() for d in f.data])
+                fn = solver.solve if call['kind'] == 'solve' else solver.restart
+                res = fn(f, h['cfl'], call['tsave'], stop=call['stop'], monitors=mons,
+                         directives={'dtlocal': True} if call['dtlocal'] else {})
+                untouched = (f.time == keep[0] and f.it == keep[1] and all(np.array_equal(a, b) for a, b in zip(f.data, keep[2])))
+                outs.append(dict(inp=(float(f.time), int(f.it), [float(x) for x in f.data[0]]),
+                                 results=[(float(s.time), int(s.it), np.array(s.data[0], dtype=float).copy()) for s in res],
+                                 nit=solver.nit(), totnit=solver.totnit(), time=float(solver.Qn.time), data=np.array(solver.Qn.data[0], dtype=float).copy(),
+                                 mons=[(list(mons[k]['output']._it), list(mons[k]['output']._time), list(mons[k]['output']._value)) if 'output' in mons[k] else ([], [], [])
+                                       for k in sorted(mons)], untouched=untouched))
+                # next call starts from the last returned field
+                if len(res) > 0:
+                    f = res[-1]
+            return outs
+        ok, outs = impl.guarded(run)
+        h['impl_ok'] = ok; h['impl'] = outs
+    # model side: sequential rounds (the hidden state is chained through the model)
+    state = {i: dict(last=None) for i in range(len(hist))}
+    for rnd in range(3):
+        lines, idx = [], []
+        for i, h in enumerate(hist):
+            if not h['impl_ok'] or rnd >= len(h['calls']) or state[i].get('dead'):
+                continue
+            call = h['calls'][rnd]
+            t_in, it_in, q_in = h['impl'][rnd]['inp']
+            itstart = 0 if call['kind'] == 'solve' else max(it_in, 0)
+            last = None if call['kind'] == 'solve' else state[i]['last']
+            lines.append(drv_line(h['p'], call, h['cfl'], t_in, itstart, q_in, last))
+            idx.append(i)
+        ans = ctx.lean.ask(lines)
+        for i, line in zip(idx, ans):
+            h = hist[i]; call = h['calls'][rnd]; im = h['impl'][rnd]
+            inp = dict(problem=h['p'], cfl=h['cfl'], t0=h['t0'], it0=h['it0'], calls=h['calls'][:rnd + 1])
+            cls = h['p']['cls']
+            r.count("%s:%s" % (cls, call['kind']))
+            if line.strip() == 'bad-op':
+                r.cases += 1; r.disagreements.append(dict(what=cls, input=inp, reason='model answered bad-op')); state[i]['dead'] = True; continue
+            m = parse_drv(line)
+            state[i]['last'] = m['last']
+            tau = 2.0 ** -30 if cls not in IMPLICIT else 1e-6
+            sc = max(1.0, max(abs(x) for x in h['p']['q0']), max(abs(float(x)) for x in m['data'])) * 8
+            tsc = max(1.0, abs(h['t0']) + 8 * h['cfl'])
+            okc = True
+            okc &= r.compare_exact(cls + '/caller-field-untouched', inp, im['untouched'], True)
+            okc &= r.compare_exact(cls + '/nit', inp, im['nit'], m['nit'])
+            itstart = 0 if call['kind'] == 'solve' else max(im['inp'][1], 0)
+            okc &= r.compare_exact(cls + '/totnit', inp, im['totnit'], itstart + m['nit'])
+            if not okc:
+                state[i]['dead'] = True; continue
+            r.compare(cls + '/final-time', inp, im['time'], m['time'], tsc, tau)
+            r.compare(cls + '/final-data', inp, im['data'], m['data'], sc, tau)
+            okn = r.compare_exact(cls + '/nresults', inp, len(im['results']), len(m['results']))
+            if okn:
+                for (t_i, it_i, d_i), (t_m, it_m, d_m) in zip(im['results'], m['results']):
+                    r.compare(cls + '/snap-time', inp, t_i, t_m, tsc, tau)
+                    r.compare_exact(cls + '/snap-it', inp, it_i, it_m)
+                    r.compare(cls + '/snap-data', inp, d_i, d_m, sc, tau)
+            else:
+                state[i]['dead'] = True
+            for j, (mi, mm) in enumerate(zip(im['mons'], m['mons'])):
+                if call['kind'] == 'restart':
+                    continue        # monitor objects are created per call dictionary; compared on solve calls only
+                okm = r.compare_exact(cls + '/monitor-its', inp, [int(x) for x in mi[0]], [e[0] for e in mm])
+                if okm:
+                    r.compare(cls + '/monitor-times', inp, mi[1], [e[1] for e in mm], tsc, tau)
+                    r.compare(cls + '/monitor-values', inp, mi[2], [e[2] for e in mm], sc, tau)
+    for h in hist:
+        if not h['impl_ok']:
+            r.cases += 1
+            r.disagreements.append(dict(what=h['p']['cls'], input=dict(problem=h['p'], calls=h['calls']), reason='implementation raised', detail=h['impl']))
+    return r
+
+
+def layer_istep(ctx):
+    """one step of implicit / cranknicolson / gear (with and without memory), scalar and local dt"""
+    r = LayerResult('L-istep')
+    lines, cases = [], []
+    for i in range(ctx.n(45, 600)):
+        cls = ['implicit', 'cranknicolson', 'gear'][i % 3]
+        p = rand_problem(ctx.rng, cls)
+        n = p['n']
+        t0 = dyadic(ctx.rng, 0, 2)
+        local = ctx.rng.random() < 0.3
+        dt = [abs(dyadic(ctx.rng, 0.05, 1.0)) + 2.0 ** -5 for _ in range(n if local else 1)]
+        two = (cls == 'gear' and i % 2 == 0)
+        def run():
+            disc = FDisc(p['c'], p['w'])
+            s = getattr(impl.integ, cls)(FMesh(n), disc)
+            f = impl.field.fdata(FModel(), FMesh(n), [np.array(p['q0'], dtype=float)], t=t0)
+            d = dt[0] if not local else np.array(dt)
+            s.step(f, d)
+            first = (float(f.time), f.data[0].copy(), np.array(s.residual[0], dtype=float).copy())
+            if two:
+                s.step(f, d)
+                return first, (float(f.time), f.data[0].copy(), np.array(s.residual[0], dtype=float).copy())
+            return first, None
+        ok, out = impl.guarded(run)
+        inp = dict(problem=p, t0=t0, dt=dt, two_steps=two)
+        if not ok:
+            r.cases += 1; r.disagreements.append(dict(what=cls, input=inp, reason='implementation raised', detail=out)); continue
+        lines.append("istep %s | %s | %s | %s | %s | " % (cls, qs(p['c']), q(t0), qs(dt), qs(p['q0'])))
+        cases.append((cls, inp, out, two, p, dt))
+    ans = ctx.lean.ask(lines)
+    second = []
+    for (cls, inp, out, two, p, dt), line in zip(cases, ans):
+        r.count(cls + (':local' if len(dt) > 1 else ':scalar'))
+        if line.strip() == 'bad-op':
+            r.cases += 1; r.disagreements.append(dict(what=cls, input=inp, reason='bad-op')); continue
+        g = parse_groups(line)
+        sc = max(1.0, max(abs(x) for x in p['q0'])) * 8
+        r.compare(cls + '/time', inp, out[0][0], g[0][0], max(1.0, abs(inp['t0'])), 1e-9)
+        r.compare(cls + '/data', inp, out[0][1], g[1], sc, 1e-6)
+        if two:
+            second.append((cls, inp, out, p, dt, g))
+    lines = ["istep %s | %s | %s | %s | %s | %s" % (cls, qs(p['c']), q(g[0][0]), qs(dt), qs(g[1]), qs(g[2])) for (cls, inp, out, p, dt, g) in second]
+    ans = ctx.lean.ask(lines)
+    for (cls, inp, out, p, dt, g), line in zip(second, ans):
+        g2 = parse_groups(line)
+        sc = max(1.0, max(abs(x) for x in p['q0'])) * 8
+        r.count('gear:second-step')
+        r.compare('gear/second/time', inp, out[1][0], g2[0][0], max(1.0, abs(inp['t0'])), 1e-9)
+        r.compare('gear/second/data', inp, out[1][1], g2[1], sc, 1e-6)
     return r
